@@ -18,13 +18,14 @@ FAULTS = [
     "dup-state", "dup-parameter", "clash-state-parameter", "clash-state-intermediate", "clash-parameter-intermediate",
     "missing-derivative", "orphan-derivative-no-state", "orphan-derivative-other-component", "undefined-symbol",
     "cycle-2", "cycle-self", "cycle-long", "cycle-through-derivative", "undefined-symbol-by-deletion",
+    "undefined-symbol-only-inside-subexpressions",
 ]
 RULE = (
-    "a well-formed model from vlib.modelgen + exactly one well-formedness fault drawn from 18 classes (duplicate "
+    "a well-formed model from vlib.modelgen + exactly one well-formedness fault drawn from 19 classes (duplicate "
     "intermediate: constant vs constant / same dependencies / other dependencies; duplicate derivative, state, "
     "parameter; kind clashes state-parameter, state-intermediate, parameter-intermediate with equal or "
     "different values; missing derivative; orphan derivative without state / with the state in another "
-    "component; undefined symbol (a new name, or a referenced definition deleted); 2-cycle, self-cycle, long cycle, cycle through a derivative name) at a drawn "
+    "component; undefined symbol (a new name, a referenced definition deleted, or a deleted parameter whose every use sits inside one kind of compound sub-expression - call, conditional, power, parenthesised group, negation - that the base model, loaded first in the same process, contains verbatim); 2-cycle, self-cycle, long cycle, cycle through a derivative name) at a drawn "
     "site, component and textual position. For 'differing' duplicates the two right-hand sides evaluate "
     "differently at a reference point. Oracle: an exception must surface no later than gotran2py.get_code and "
     "gotran2c.get_code. Non-trivial = every case (each is an ill-formed text); distinct by sha1 of the text."
@@ -206,6 +207,29 @@ def strategy(tier):
         model = G.gen_model(draw, c)
         # all-named components when there are several blocks with the same tuple needs care: keep it simple
         fault = draw(st.sampled_from(FAULTS))
+        if fault == "undefined-symbol-only-inside-subexpressions":
+            # a parameter whose every use sits inside one kind of compound sub-expression; the base model
+            # (loaded first) contains those sub-expressions verbatim, the faulty text only lacks the declaration
+            kind = draw(st.sampled_from(["call", "cond", "pow", "group", "neg", "logical"]))
+            host = draw(st.sampled_from(model["states"]))
+            model["params"].append({"name": "zq_sub", "value": ["num", draw(st.sampled_from(["0.5", "2"]))], "comps": list(host["comps"]), "unit": None, "desc": None})
+            z, x = ["var", "zq_sub"], ["var", host["name"]]
+            wrap = {
+                "call": lambda: ["call", draw(st.sampled_from(["exp", "sin", "abs", "floor"])), ["bin", "*", ["neg", z], x]],
+                "cond": lambda: ["cond", ["rel", "Gt", x, ["num", "0"]], z, ["num", "1"]],
+                "logical": lambda: ["cond", ["and", ["rel", "Gt", z, ["num", "0"]], ["rel", "Lt", x, ["num", "9"]]], ["num", "2"], ["num", "1"]],
+                "pow": lambda: ["bin", "**", ["bin", "+", z, ["num", "1"]], ["num", "2"]],
+                "group": lambda: ["bin", "*", ["num", "2"], ["bin", "+", z, x]],
+                "neg": lambda: ["neg", ["bin", "*", z, x]],
+            }[kind]
+            targets = draw(st.lists(st.sampled_from(range(len(model["assigns"]))), min_size=1, max_size=2, unique=True))
+            for i in targets:
+                a = model["assigns"][i]
+                if list(a["comps"]) == list(host["comps"]) or True:
+                    a["expr"] = ["bin", draw(st.sampled_from(["+", "-"])), a["expr"], wrap()]
+            m = copy.deepcopy(model)
+            m["params"] = [p for p in m["params"] if p["name"] != "zq_sub"]
+            return {"base": X.render_model(model), "text": render_faulty(m), "fault": fault, "note": f"the parameter zq_sub is not declared; its uses all sit inside a {kind}"}
         r = inject(draw, model, fault)
         if r is None:
             fault = "undefined-symbol"
@@ -247,7 +271,7 @@ def check_case(case):
 
 
 CLAIM = {
-    "text": "Fault-injection exploration: hundreds to thousands of ill-formed texts, each a generated well-formed model plus exactly one fault from 18 classes at a drawn site / component / position; every one must raise no later than Python and C code generation. No absence claim beyond the enumerated fault classes.",
+    "text": "Fault-injection exploration: hundreds to thousands of ill-formed texts, each a generated well-formed model plus exactly one fault from 19 classes at a drawn site / component / position; every one must raise no later than Python and C code generation. No absence claim beyond the enumerated fault classes.",
     "note": "Trusted: the injector (each class is ill-formed by construction; differing duplicates are confirmed to evaluate differently by vlib/refsem.py).",
     "technique": "property-based fault injection (Hypothesis): generated well-formed model + one injected fault, oracle = must raise",
 }
